@@ -437,3 +437,156 @@ func VerifC20_MessageList() {
 		vrt.Assert(isB && z == zs[i], "C20.message-list.element-bool")
 	}
 }
+
+func init() { vrt.Register("VerifC20_DescMap", VerifC20_DescMap) }
+
+// VerifC20_DescMap: M{map<KT,VT> m=3; int32 t=4} with one entry (Go's map order is not part of the claim)
+// written through WriteAnyWithDesc from each Go representation the writer accepts - REP 0: map[string]interface{}
+// (string keys), 1: map[interface{}]interface{} with keys of the kind's Go type (what ReadMap returns),
+// 2: map[int]interface{} with casting - is byte-identical to the reference encoding and reads back equal.
+// VT = MESSAGE uses Inner{int32 a=1}.
+func VerifC20_DescMap() {
+	kt := proto.Type(vrt.Param("KT"))
+	vt := proto.Type(vrt.Param("VT"))
+	rep := vrt.Param("REP")
+	cast := vrt.Param("CAST") != 0
+	byName := vrt.Param("BYNAME") != 0
+	if (rep == 0) != (kt == proto.STRING) || (rep == 2 && !cast) {
+		vrt.Reach("skip")
+		return
+	}
+	inner := proto.VerifNewMessage("Inner")
+	proto.VerifAddField(inner, 1, "a", "a", proto.VerifBasic(proto.INT32), false)
+	proto.VerifBuild(inner)
+	vd := proto.VerifBasic(vt)
+	if vt == proto.MESSAGE {
+		vd = inner
+	}
+	msg := proto.VerifNewMessage("M")
+	proto.VerifAddMap(msg, 3, "m", "m", proto.VerifBasic(kt), vd)
+	proto.VerifAddField(msg, 4, "t", "t", proto.VerifBasic(proto.INT32), false)
+	proto.VerifBuild(msg)
+
+	// key
+	var kGo interface{}
+	var kEnc []byte
+	var kInt int
+	if rep == 2 {
+		small := int8(vrt.U8())
+		if kt == proto.UINT32 || kt == proto.UINT64 || kt == proto.FIX32 || kt == proto.FIX64 {
+			vrt.Assume(small >= 0)
+		}
+		kInt = int(small)
+		switch kt {
+		case proto.SINT32, proto.SINT64:
+			kEnc = gpw.AppendVarint(nil, gpw.EncodeZigZag(int64(small)))
+		case proto.FIX32, proto.SFIX32:
+			kEnc = gpw.AppendFixed32(nil, uint32(int32(small)))
+		case proto.FIX64, proto.SFIX64:
+			kEnc = gpw.AppendFixed64(nil, uint64(int64(small)))
+		default:
+			kEnc = gpw.AppendVarint(nil, uint64(int64(small)))
+		}
+	} else {
+		kGo, kEnc = verifGoValue(kt)
+	}
+	// value
+	var vGo interface{}
+	var vEnc []byte
+	var av int32
+	if vt == proto.MESSAGE {
+		av = int32(vrt.U8())
+		if byName {
+			vGo = map[string]interface{}{"a": av}
+		} else {
+			vGo = map[proto.FieldNumber]interface{}{1: av}
+		}
+		vEnc = gpw.AppendBytes(nil, gpw.AppendVarint(gpw.AppendTag(nil, 1, gpw.VarintType), uint64(av)))
+	} else {
+		vGo, vEnc = verifGoValue(vt)
+	}
+	var mv interface{}
+	switch rep {
+	case 0:
+		mv = map[string]interface{}{kGo.(string): vGo}
+	case 1:
+		mv = map[interface{}]interface{}{kGo: vGo}
+	default:
+		mv = map[int]interface{}{kInt: vGo}
+	}
+	tv := int32(vrt.U8())
+	var val interface{}
+	if byName {
+		val = map[string]interface{}{"m": mv, "t": tv}
+	} else {
+		val = map[proto.FieldNumber]interface{}{3: mv, 4: tv}
+	}
+	var e []byte
+	e = append(gpw.AppendTag(e, 1, verifKindWire(kt)), kEnc...)
+	e = append(gpw.AppendTag(e, 2, verifKindWire(vt)), vEnc...)
+	ref1 := gpw.AppendBytes(gpw.AppendTag(nil, 3, gpw.BytesType), e)
+	ref2 := gpw.AppendVarint(gpw.AppendTag(nil, 4, gpw.VarintType), uint64(tv))
+
+	p := &BinaryProtocol{Buf: make([]byte, 0, 8)}
+	err := p.WriteAnyWithDesc(msg, val, false, cast, true, byName)
+	vrt.Assert(err == nil, "C20.descmap.write.noerror")
+	if err != nil {
+		return
+	}
+	vrt.Reach("written")
+	// the two fields may be written in either order (Go map iteration)
+	ab := append(append([]byte{}, ref1...), ref2...)
+	ba := append(append([]byte{}, ref2...), ref1...)
+	vrt.Dump("C20.descmap got", p.Buf)
+	vrt.Dump("C20.descmap ref", ab)
+	vrt.Assert(verifSame(p.Buf, ab) || verifSame(p.Buf, ba), "C20.descmap.encoding")
+	r := BinaryProtocol{Buf: ab}
+	back, err := r.ReadAnyWithDesc(msg, false, true, true, byName)
+	vrt.Assert(err == nil, "C20.descmap.read.noerror")
+	if err != nil {
+		return
+	}
+	var bm interface{}
+	if byName {
+		m, ok := back.(map[string]interface{})
+		vrt.Assert(ok && len(m) == 2, "C20.descmap.read.shape")
+		if !ok {
+			return
+		}
+		bm = m["m"]
+		t2, isI := m["t"].(int32)
+		vrt.Assert(isI && t2 == tv, "C20.descmap.read.sibling")
+	} else {
+		m, ok := back.(map[proto.FieldNumber]interface{})
+		vrt.Assert(ok && len(m) == 2, "C20.descmap.read.shape")
+		if !ok {
+			return
+		}
+		bm = m[3]
+		t2, isI := m[4].(int32)
+		vrt.Assert(isI && t2 == tv, "C20.descmap.read.sibling")
+	}
+	mm, ok := bm.(map[interface{}]interface{})
+	vrt.Assert(ok && len(mm) == 1, "C20.descmap.read.map-shape")
+	if !ok {
+		return
+	}
+	for k, v := range mm {
+		if rep != 2 {
+			vrt.Assert(verifGoEq(k, kGo), "C20.descmap.read.key")
+		}
+		if vt == proto.MESSAGE {
+			if byName {
+				im, isM := v.(map[string]interface{})
+				a2, isI := im["a"].(int32)
+				vrt.Assert(isM && isI && a2 == av, "C20.descmap.read.message-value")
+			} else {
+				im, isM := v.(map[proto.FieldNumber]interface{})
+				a2, isI := im[1].(int32)
+				vrt.Assert(isM && isI && a2 == av, "C20.descmap.read.message-value")
+			}
+		} else {
+			vrt.Assert(verifGoEq(v, vGo), "C20.descmap.read.value")
+		}
+	}
+}
